@@ -3025,7 +3025,6 @@ func ruleMergeDeletesAfterAdd(r *Run) {
 	r.check(n >= 1, "MergeLabels:index-deletions", fmt.Sprintf("%d", n), "no index deletion found: rule needs review", w.fpos(f))
 }
 
-
 // adjacentFieldStores: a and b are in one block and no store into a field named `field` lies between them.
 func adjacentFieldStores(a, b *ssa.Store, field string) bool {
 	blk := a.Block()
@@ -3061,4 +3060,269 @@ func init() {
 	register(ruleDef{ID: "R3.28", Prop: "C03", Tier: "quick", Floor: 2,
 		Title: "the head's id list is in the same order after a restart as before it (shared with R16.7): the in-memory database filled from the store by plain appends is sorted numerically before it is used, and searched with a monotone predicate — the store returns decimal keys in string order",
 		Fn:    ruleR16_7})
+}
+
+// ---------------------------------------------------------------------------------------------
+// R8.21 / R20.52 — a merge whose target is among the merged labels is refused before anything changes
+
+func init() {
+	reg := func(id, prop string) {
+		register(ruleDef{ID: id, Prop: prop, Tier: "quick", Floor: 1,
+			Title: "a merge of a body into itself is refused before anything changes: in labelmap MergeLabels the first step that changes state (the mapping, an index, the log) lies behind a lookup of the target in the set of merged labels that leaves with an error when it is found — the index step refuses such a merge only after the supervoxels were already remapped",
+			Fn:    ruleSelfMergeRefusedFirst})
+	}
+	reg("R8.21", "C08")
+	reg("R20.52", "C20")
+}
+
+func ruleSelfMergeRefusedFirst(r *Run) {
+	w := r.W
+	f := w.method("datatype/labelmap", "Data", "MergeLabels")
+	if f == nil {
+		r.undecided("labelmap.Data.MergeLabels", "anchor not found")
+		return
+	}
+	var firstChange ssa.Instruction
+	for _, c := range calls(f) {
+		callee := staticCallee(c)
+		if callee == nil {
+			continue
+		}
+		switch callee.Name() {
+		case "addMergeToMapping", "addToLabelIndex", "DeleteLabelIndex", "LogMerge":
+			if firstChange == nil || c.Pos() < firstChange.Pos() {
+				firstChange = c
+			}
+		}
+	}
+	if !r.check(firstChange != nil, "MergeLabels:first-change", "found", "no state-changing step found: rule needs review", w.fpos(f)) {
+		return
+	}
+	ok := false
+	for _, b := range f.Blocks {
+		for _, in := range b.Instrs {
+			lk, isLk := in.(*ssa.Lookup)
+			if !isLk || !lk.CommaOk {
+				continue
+			}
+			if nm, ok2 := fieldSel(lk.X); !ok2 || nm != "Merged" {
+				continue
+			}
+			if nm, ok2 := fieldSel(lk.Index); !ok2 || nm != "Target" {
+				continue
+			}
+			var found ssa.Value
+			for _, ref := range *lk.Referrers() {
+				if ex, isEx := ref.(*ssa.Extract); isEx && ex.Index == 1 {
+					found = ex
+				}
+			}
+			if found == nil {
+				continue
+			}
+			for _, b2 := range f.Blocks {
+				ifi, isIf := b2.Instrs[len(b2.Instrs)-1].(*ssa.If)
+				if isIf && ifi.Cond == found && guardedByEdge(ifi, 1, firstChange) {
+					// the found edge leaves with an error
+					for _, x := range b2.Succs[0].Instrs {
+						if ret, isRet := x.(*ssa.Return); isRet && isErrorExit(ret) {
+							ok = true
+						}
+					}
+				}
+			}
+		}
+	}
+	r.check(ok, "MergeLabels:target-among-merged-refused-first", "the target is looked up in the merged set, and refused, before the first change",
+		"a merge request that names its target among the merged labels reaches the remapping of the supervoxels before anything refuses it: the index step then answers 400, but the merged body's supervoxels are already mapped to the target while its index still stands — voxels, mapping and indices disagree", w.pos(firstChange.Pos()))
+}
+
+// ---------------------------------------------------------------------------------------------
+// R20.53 — a path element is read only where the path is known to be long enough
+
+func init() {
+	register(ruleDef{ID: "R20.53", Prop: "C20", Tier: "quick", Floor: 1,
+		Title: "a path element is read only where the path is known to be long enough: in the data types' request handlers every constant index parts[k] into the URL's path elements (the result of strings.Split, or a parameter that call sites fill with it) is dominated by a comparison of len(parts) with a constant that guarantees k+1 elements — in the function or at every call site (a URL that stops short must be a 400, not a recovered index panic)",
+		Fn:    rulePathElementGuarded})
+}
+
+// lenGuarantee: the least length of slice value s that is guaranteed at instruction `at` of f by
+// dominating comparisons of len(s) with constants.
+func lenGuarantee(f *ssa.Function, s ssa.Value, at ssa.Instruction) int64 {
+	best := int64(0)
+	same := func(v ssa.Value) bool {
+		x := lenOf(stripConv(v))
+		if x == nil {
+			return false
+		}
+		return x == s || sameRoots(x, s, f)
+	}
+	for _, b := range f.Blocks {
+		ifi, ok := b.Instrs[len(b.Instrs)-1].(*ssa.If)
+		if !ok {
+			continue
+		}
+		bo, ok := ifi.Cond.(*ssa.BinOp)
+		if !ok {
+			continue
+		}
+		var c int64
+		var op token.Token
+		if k, isC := constInt(bo.Y); isC && same(bo.X) {
+			c, op = k, bo.Op
+		} else if k, isC := constInt(bo.X); isC && same(bo.Y) {
+			c = k
+			switch bo.Op { // c OP len  ==  len OP' c
+			case token.LSS:
+				op = token.GTR
+			case token.LEQ:
+				op = token.GEQ
+			case token.GTR:
+				op = token.LSS
+			case token.GEQ:
+				op = token.LEQ
+			default:
+				op = bo.Op
+			}
+		} else {
+			continue
+		}
+		// guarantee on the true edge / false edge
+		var onTrue, onFalse int64
+		switch op {
+		case token.LSS: // len < c : false edge ⇒ len ≥ c
+			onFalse = c
+		case token.LEQ: // len <= c : false ⇒ len ≥ c+1
+			onFalse = c + 1
+		case token.GTR: // len > c : true ⇒ len ≥ c+1
+			onTrue = c + 1
+		case token.GEQ:
+			onTrue = c
+		case token.EQL:
+			onTrue = c
+		case token.NEQ:
+			onFalse = c
+		}
+		if onTrue > best && guardedByEdge(ifi, 0, at) {
+			best = onTrue
+		}
+		if onFalse > best && guardedByEdge(ifi, 1, at) {
+			best = onFalse
+		}
+	}
+	return best
+}
+
+func rulePathElementGuarded(r *Run) {
+	w := r.W
+	sites := callSitesOf(w)
+	isSplit := func(v ssa.Value) bool {
+		c, ok := v.(*ssa.Call)
+		if !ok {
+			return false
+		}
+		callee := c.Call.StaticCallee()
+		return callee != nil && callee.Pkg != nil && callee.Pkg.Pkg.Path() == "strings" && callee.Name() == "Split"
+	}
+	var guaranteed func(f *ssa.Function, s ssa.Value, at ssa.Instruction, depth int) int64
+	guaranteed = func(f *ssa.Function, s ssa.Value, at ssa.Instruction, depth int) int64 {
+		g := lenGuarantee(f, s, at)
+		prm, isParam := s.(*ssa.Parameter)
+		if !isParam || depth >= 2 {
+			return g
+		}
+		// the least guarantee over the call sites
+		idx := -1
+		for i, p := range f.Params {
+			if p == prm {
+				idx = i
+			}
+		}
+		cs := sites[f]
+		if idx < 0 || len(cs) == 0 {
+			return g
+		}
+		least := int64(1 << 30)
+		for _, c := range cs {
+			cc, ok := c.(ssa.CallInstruction)
+			if !ok {
+				continue
+			}
+			args := cc.Common().Args
+			if idx >= len(args) {
+				least = 0
+				continue
+			}
+			a := args[idx]
+			x := guaranteed(c.Parent(), a, c, depth+1)
+			// a re-slicing parts[k:] passes on the rest
+			if x < least {
+				least = x
+			}
+		}
+		if least == 1<<30 {
+			least = 0
+		}
+		if least > g {
+			g = least
+		}
+		return g
+	}
+	n := 0
+	for _, f := range w.RepoFuncs {
+		if !strings.HasPrefix(relPkg(pkgPathOf(f)), "datatype/") || len(f.Blocks) == 0 || isTestFunc(w, f) {
+			continue
+		}
+		k := 0
+		seen := map[string]bool{}
+		for _, b := range f.Blocks {
+			for _, in := range b.Instrs {
+				ia, ok := in.(*ssa.IndexAddr)
+				if !ok {
+					continue
+				}
+				ci, ok := constInt(ia.Index)
+				if !ok {
+					continue
+				}
+				if t, ok := ia.X.Type().Underlying().(*types.Slice); !ok || !types.Identical(t.Elem(), types.Typ[types.String]) {
+					continue
+				}
+				// the slice: a Split result, or a parameter named parts
+				s := ia.X
+				isPath := false
+				if prm, ok := s.(*ssa.Parameter); ok && prm.Name() == "parts" {
+					isPath = true
+				}
+				for _, rv := range roots(s, f) {
+					if isSplit(rv.V) {
+						if c := rv.V.(*ssa.Call); len(c.Call.Args) == 2 {
+							if sep, ok := c.Call.Args[1].(*ssa.Const); ok && sep.Value != nil && constant.StringVal(sep.Value) == "/" {
+								isPath = true
+							}
+						}
+					}
+				}
+				if !isPath {
+					continue
+				}
+				id := fmt.Sprintf("%s[%d]", placeKey(s), ci)
+				if seen[id] {
+					continue
+				}
+				n++
+				g := guaranteed(f, s, ia, 0)
+				if g >= ci+1 {
+					seen[id] = true
+					continue
+				}
+				// every read of this element in the function is reported once, at its first unguarded use
+				seen[id] = true
+				k++
+				r.violation(fmt.Sprintf("%s:parts[%d]:length-known", fname(f), ci),
+					fmt.Sprintf("path element %d is read where only %d elements are guaranteed: a URL that stops short ends in a recovered index panic (500) instead of a 400", ci, g), w.pos(ia.Pos()))
+			}
+		}
+	}
+	r.check(n >= 50, "datatype:path-element-reads", fmt.Sprintf("%d", n), "too few: rule needs review", "-")
 }
